@@ -21,6 +21,19 @@ func (u *URL) formatLocal() string {
 	return u.Path
 }
 
+// pathResemblesPortSpecification returns whether or not a path begins with a
+// (potentially empty) sequence of digits followed by a colon, i.e. with
+// something that parseSCPSSH would interpret as a port specification.
+func pathResemblesPortSpecification(path string) bool {
+	for _, r := range path {
+		if '0' <= r && r <= '9' {
+			continue
+		}
+		return r == ':'
+	}
+	return false
+}
+
 // formatSSH formats an SSH URL into an SCP-style URL.
 func (u *URL) formatSSH() string {
 	// Create the base result.
@@ -31,8 +44,10 @@ func (u *URL) formatSSH() string {
 		result = fmt.Sprintf("%s@%s", u.User, result)
 	}
 
-	// Add port if present.
-	if u.Port != 0 {
+	// Add port if present. We also have to add an explicit (zero-valued) port
+	// if the path starts with something that would otherwise be parsed as a
+	// port specification.
+	if u.Port != 0 || pathResemblesPortSpecification(u.Path) {
 		result = fmt.Sprintf("%s:%d", result, u.Port)
 	}
 
